@@ -61,6 +61,29 @@ def gen_growth(rng, prefix, count, runs, sums=0.0, readers=0):
                             {"maxcells": rng.choice([4, 8, 8]), "maxsteps": 20000}))
     return out
 
+def gen_pregrown(rng, prefix, count, runs, sums=0.0, readers=0):
+    """the same from an already grown table (4 of 4, 2 of 4, 8 of 16, 16 of 16 slots; some empty): the next growth
+    (re-slice or make+copy) and attaches into empty slots are a couple of collisions away"""
+    out = []
+    shapes = [(4, 4, 8), (4, 4, 16), (2, 4, 8), (8, 16, 16), (16, 16, 32)]
+    for i in range(count):
+        kind = rng.choice(["jdkadd", "jdkadd", "jdkf"])
+        n, cap, mx = shapes[i % len(shapes)] if i % 5 else shapes[0]
+        mask = 0
+        for j in range(n):
+            if rng.random() < 0.7:
+                mask |= 1 << j
+        used, ths = [], []
+        for t in range(rng.choice([3, 4, 5])):
+            ths.append([("s" if rng.random() < sums else upd(rng, used, kind)) for _ in range(rng.choice([2, 3, 4]))])
+        for t in range(readers):
+            ths.append(["s"] * rng.choice([2, 3]))
+        words = [rng.randint(1, n - 1) if rng.random() < 0.8 else rng.randint(1, 2 * n) for _ in range(120)]
+        m = ("rand %d %d" % (runs, rng.randint(1, 1 << 30))) if i % 2 == 0 else ("pct %d %d %d" % (runs, rng.randint(1, 1 << 30), rng.choice([2, 3, 5])))
+        out.append(conc.Scn("%s%d" % (prefix, i), kind, words, ths, m,
+                            {"maxcells": mx, "maxsteps": 20000, "pglen": n, "pgcap": cap, "pgmask": mask}))
+    return out
+
 def rand_mode(tier, q, t):
     return lambda r: "rand %d %d" % (scale(tier, q, t), r.randint(1, 1 << 30))
 
@@ -71,6 +94,7 @@ def gen_c02(tier, rng):
     s += gen_updates(rng, "c", ["jdkadd", "jdkadd", "jdkf"], scale(tier, 24, 300), [3, 4, 5], [2, 3, 4], rand_mode(tier, 400, 4000), big=True)
     s += gen_updates(rng, "d", ["rc", "atomic", "atomicf", "mutexadd"], scale(tier, 12, 100), [2, 3], [2, 3], "dfs 2 %d" % scale(tier, 1500, 20000), big=True)
     s += gen_growth(rng, "g", scale(tier, 12, 100), scale(tier, 400, 4000))
+    s += gen_pregrown(rng, "h", scale(tier, 16, 120), scale(tier, 400, 4000))
     return s
 
 def gen_c09(tier, rng):
@@ -80,6 +104,7 @@ def gen_c09(tier, rng):
     s += gen_updates(rng, "c", ["jdkadd", "jdkadd", "jdkf"], scale(tier, 24, 300), [3, 4, 5], [2, 3, 4], rand_mode(tier, 400, 4000), sums=0.3)
     s += gen_updates(rng, "d", ["rc", "atomic", "atomicf", "mutexadd"], scale(tier, 10, 80), [2, 3], [2, 3], "dfs 2 %d" % scale(tier, 1500, 20000), sums=0.35)
     s += gen_growth(rng, "g", scale(tier, 16, 120), scale(tier, 500, 4000), sums=0.0, readers=2)
+    s += gen_pregrown(rng, "h", scale(tier, 20, 150), scale(tier, 500, 4000), sums=0.0, readers=1)
     return s
 
 ALLOPS = ["a", "a", "a", "i", "d", "s", "s", "r", "q", "w"]
